@@ -20,6 +20,10 @@ class Abort(BaseException):
     """path abandoned: infeasible / assumption failed"""
 
 
+class Skip(Abort):
+    """the path belongs to another slice of a split shard (see explore(slice=...))"""
+
+
 class Unsupported(BaseException):
     """a library model or symbolic-text operation cannot represent this path: inconclusive"""
 
@@ -363,6 +367,8 @@ class Ctx:
         self.proved_symbolic = 0
         self.samples = []
         self.max_paths = max_paths
+        self.slice = None          # (k, m, depth): explore only paths whose first `depth` structural choices hash to k modulo m
+        self.skipped = 0
         # per path
         self.choices = []
         self.labels = []
@@ -407,6 +413,8 @@ class Ctx:
         self._path_sym_claims = 0
         self._path_claims = 0
         self.has_strings = False
+        self._nstruct = 0
+        self._shash = 7
         if self.mode == 'sym':
             self.solver.reset()
             self.solver.set('timeout', self.timeout_ms)
@@ -484,6 +492,10 @@ class Ctx:
         self.choices.append(c)
         if label:
             self.labels.append((label, c))
+        self._nstruct += 1
+        self._shash = (self._shash * 31 + c + 1) % 1000003
+        if self.slice is not None and self._nstruct == self.slice[2] and self._shash % self.slice[1] != self.slice[0]:
+            raise Skip()
         return c
 
     def branch(self, cond):
@@ -738,10 +750,14 @@ def pick(seq, label=''):
 
 
 # --------------------------------------------------------------------------- exploration driver
-def explore(fn, args=(), timeout_ms=20000, max_paths=None, time_budget=None, max_findings=400, nsamples=3):
-    """run `fn(*args)` over every control path; returns a statistics dict (picklable)"""
+def explore(fn, args=(), timeout_ms=20000, max_paths=None, time_budget=None, max_findings=400, nsamples=3, slice=None):
+    """run `fn(*args)` over every control path; returns a statistics dict (picklable).
+    slice=(k, m[, depth]): one of m disjoint parts of the path tree (split on the first `depth` structural choices; a path with
+    fewer structural choices belongs to part 0) -- the parts together are exactly the unsliced exploration."""
     global CTX
     c = Ctx('sym', timeout_ms=timeout_ms, max_paths=max_paths)
+    if slice is not None:
+        c.slice = (int(slice[0]), int(slice[1]), int(slice[2]) if len(slice) > 2 else 3)
     CTX = c
     t0 = time.time()
     truncated = None
@@ -753,6 +769,8 @@ def explore(fn, args=(), timeout_ms=20000, max_paths=None, time_budget=None, max
         unsupported = None
         try:
             fn(*args)
+            if c.slice is not None and c._nstruct < c.slice[2] and c.slice[0] != 0:
+                raise Skip()        # too few structural choices to be assigned by hash: counted by part 0 only
             c.paths += 1
             if c._path_claims and c.vars:
                 c.paths_nontrivial += 1
@@ -761,6 +779,8 @@ def explore(fn, args=(), timeout_ms=20000, max_paths=None, time_budget=None, max
                                   'notes': _jsonable({k: v for k, v in c.notes.items() if k != '_reach'}),
                                   'claims': c._path_claims, 'claims_needing_solver': c._path_sym_claims,
                                   'symbolic_vars': len(c.vars)})
+        except Skip:
+            c.skipped += 1
         except Abort:
             c.aborted += 1
         except z3.Z3Exception as e:
@@ -801,7 +821,7 @@ def explore(fn, args=(), timeout_ms=20000, max_paths=None, time_budget=None, max
         if not c._next_path():
             break
     CTX = None
-    return {'paths': c.paths, 'nontrivial': c.paths_nontrivial, 'aborted': c.aborted,
+    return {'paths': c.paths, 'nontrivial': c.paths_nontrivial, 'aborted': c.aborted, 'skipped_other_slices': c.skipped,
             'queries': c.queries, 'solver_s': round(c.solver_time, 3), 'proved': c.proved, 'claims': c.claims,
             'proved_symbolic': c.proved_symbolic,
             'inconclusive': [(r, ch) for r, ch in c.inconclusive[:20]], 'n_inconclusive': len(c.inconclusive),
